@@ -79,6 +79,10 @@ def run_job(job):
                     v = eng.tokens.get(g)
                     vals.append(v if v is not None else symfp.SFP(symfp.fpv(float(g))))
                 H, S, L = [symfp.SFP.lift(v) for v in vals]
+                # a literal zero saturation is the achromatic branch: it reads back as a grey, so it may only be taken for greys
+                if m.group(2) == "0":
+                    eng.oblige("achromatic output (S = 0) only for r == g == b (IEEE-754 branch decision)",
+                               SBool(z3.And(rgb[0].t == rgb[1].t, rgb[1].t == rgb[2].t)))
                 # the library's own validation: s = S/100, l = L/100 must satisfy 0 <= . <= 1 (conversions.hsl_to_rgb)
                 # The upper bounds are where IEEE rounding is the question (the real-model job proves 0 <= S,L <= 100
                 # over the reals; correctly rounded + - * / preserve the sign of an exact non-negative result).
